@@ -1200,9 +1200,29 @@ def explain(prop, case, obs, flags):
     return base(prop, case, obs, flags)
 
 
+def static_tie(prop, repo):
+    """C18: the glyph tables of the Coq model are re-derived from the current source and compared by coqc."""
+    if prop != "C18":
+        return None
+    from .. import gen_styles
+    verif = os.path.dirname(os.path.dirname(os.path.dirname(os.path.abspath(__file__))))
+    devs = gen_styles.run(repo, verif)
+    return {"deviations": devs,
+            "what": ("the style tables of the Coq model (PRINT_STYLES / HPRINT_STYLES of constants.py, the exported "
+                     "style objects and the field order of the style dataclasses) are regenerated from the source under "
+                     "check and compared with the model by a finite vm_compute check; a deviation means the theorems "
+                     "about the built-in styles are no longer about this source's styles"),
+            "theorems": ["C18_v_text_decodable", "C18_v_builtin_styles_distinct", "C18_box_norm_hstyles",
+                         "C18_box_norm_vstyles", "C18_h_roundtrip_chain_partial", "C18_h_connectors", "C18_v_stems"],
+            "obligations_checked": "see harness/gen_styles.py emit()"}
+
+
 def trusted_base(prop):
     return COMMON_TB + ["pydot Node/Edge accessors (get_name, get('label'), get_source, get_destination, get_sequence) "
-                        "and a regular expression over the mermaid flow lines are used to read the graphs back"]
+                        "and a regular expression over the mermaid flow lines are used to read the graphs back",
+                        "harness/gen_styles.py: ast-based translator of bigtree/utils/constants.py (string constants, "
+                        "f-strings, tuples, dict literals of ExportConstants; field and __iter__ order of the style "
+                        "dataclasses; exported style objects) into GenStyles.v, checked against the model's tables by coqc"]
 
 
 def partial_clauses(prop):
